@@ -62,7 +62,18 @@ def cycle_case(item):
         last = cyc[-1] + '.do'
         closing = files[last]
         files[last] = closing.replace(' ' + cyc[0] + ' ', ' ').replace(' ' + cyc[0] + '\n', ' nocycle.leaf\n')
+    fill = 0
+    if late and '@' in late:
+        late, fill = late.split('@')[0], int(late.split('@')[1])
     pj = scen.Project(files, 'c12')
+    if late and fill:
+        # history that shuffles file ids: the entry node of the cycle is built first (its whole acyclic chain gets low ids), then `fill` unrelated targets,
+        # and only then the rest of the graph - so members of the cycle have smaller ids than their ancestors
+        ra, _ = pj.run(['redo-ifchange', ent[0]], timeout=40)
+        rb, _ = pj.run(['redo-ifchange'] + ['f%d.leaf' % i for i in range(fill)], timeout=60)
+        if ra.rc != 0 or rb.rc != 0:
+            pj.close()
+            return dict(verdict='inconclusive', why='history builds failed', sample=dict(item=list(item)))
     if late:
         r0, _ = pj.run((['redo', '-j%d' % j] if j > 1 else ['redo-ifchange']) + top, timeout=40)
         if r0.rc != 0 or r0.status != 'exit':
@@ -135,6 +146,13 @@ def items(tier):
                 for e in range(L if not quick else min(L, 2)):
                     for j in (1, 4):
                         out.append((L, P, 0, 0, (e,), j, False, False, False, late))
+    # the same with a history that gives the cycle's members smaller file ids than their ancestors (ids are compared
+    # as text in the inherited cycle chain)
+    for L in ((2, 3) if quick else (2, 3, 4)):
+        for P in ((1, 2) if quick else (0, 1, 2, 3)):
+            for fill in ((3, 9, 17) if quick else (1, 3, 5, 9, 13, 17, 24, 40, 95)):
+                for j in ((1,) if quick else (1, 4)):
+                    out.append((L, P, 0, 0, (0,), j, False, False, False, 'plain@%d' % fill))
     # entered at two nodes at once (one command, or a parent asking for both)
     for L in ((2, 3) if quick else (2, 3, 4)):
         for P in (0, 1):
@@ -145,7 +163,8 @@ def items(tier):
 
 RULE = ('cycles of length 1..6 reached through an acyclic prefix of length 0..3, with 0-2 acyclic siblings before/after the cyclic dependency '
         'in the same redo-ifchange list, every node of the cycle as entry point, -j1 (redo-ifchange) and -j4 (redo -j4), strict and '
-        'failure-ignoring scripts, first build and re-run (recorded-graph check); plus entry at two nodes at once. Oracle: not stuck '
+        'failure-ignoring scripts, first build and re-run (recorded-graph check); cycles closed by an edit after a successful build (closing node plain, '
+        'checksummed, always), also after a history that gives cycle members smaller file ids than their ancestors; plus entry at two nodes at once. Oracle: not stuck '
         '(two quiescent /proc samples with everyone blocked = violation; watchdog alone = inconclusive), no abort, non-zero top-level status '
         'for strict scripts, and exit status 208 / a cyclic-dependency message at the detecting process. Every case is non-trivial; '
         'distinct = parameter tuple.')
